@@ -40,6 +40,8 @@ class Recorder:
         self.abstract = set()
         self.max_cache = 0
         self.probes = {}
+        self.clock = None
+        self.times = {}
 
     def tuple(self):
         return (self.start, self.start_state, self.pretask, self.posttask, self.finish)
@@ -65,6 +67,8 @@ class Recorder:
 
     def pretask(self, key, dsk, state):
         self.log.append(("cb", self.name, "pretask", key))
+        if self.clock is not None:
+            self.times[("pre", key)] = self.clock.now()
         for d in state["dependencies"].get(key, ()):
             if d not in state["cache"]:
                 self.problems.append(("released_early",
@@ -72,6 +76,8 @@ class Recorder:
 
     def posttask(self, key, result, dsk, state, worker_id):
         self.log.append(("cb", self.name, "posttask", key))
+        if self.clock is not None:
+            self.times[("post", key)] = self.clock.now()
         if self.model is not None:
             self.model.finish(key)
         self._watch(("posttask", key))
@@ -115,7 +121,7 @@ class Obs:
 
 
 def run_graph(tape, spec, request, cfg, faults=None, fail=None, recorders=None,
-              use_clock=False, extra_ctx=None, callbacks_kw=False, step_cap=None):
+              use_clock=False, extra_ctx=None, callbacks_kw=False, step_cap=None, clock=None):
     """Run one scheduler call.  `request` uses real keys."""
     import dask
     import dask.local
@@ -130,7 +136,8 @@ def run_graph(tape, spec, request, cfg, faults=None, fail=None, recorders=None,
     rec = Recorder(log, requested)
     nn = len(spec["nodes"])
     sim = Sim(tape, max_workers=cfg["num_workers"], policy=cfg["policy"], faults=faults,
-              use_clock=use_clock, step_cap=step_cap or (16 * nn + 64))
+              use_clock=use_clock, step_cap=step_cap or (16 * nn + 64), clock=clock)
+    rec.clock = sim.clock if sim.use_clock else None
     obs = Obs()
     obs.sim, obs.rec, obs.log, obs.dsk = sim, rec, log, dsk
     obs.value = obs.exc = None
